@@ -4,7 +4,8 @@ import numpy as np
 
 def write_lammps(d, n_frames=5, elements=('Li', 'Li', 'S', 'S'), box=6.0, shift=0.1):
     types = {e: k + 1 for k, e in enumerate(dict.fromkeys(elements))}
-    base = np.array([[0, 0, 0], [3, 0, 0], [0, 3, 0], [3, 3, 3]], float)[:len(elements)]
+    # one atom starts outside the box and another one leaves it during the run: dumps are not wrapped
+    base = np.array([[-0.4, 0, 0], [3, 0, 0], [0, 5.9, 0], [3, 3, 3]], float)[:len(elements)]
     lines = ['LAMMPS data file', '', f'{len(elements)} atoms', f'{len(types)} atom types', '',
              f'0.0 {box} xlo xhi', f'0.0 {box} ylo yhi', f'0.0 {box} zlo zhi', '', 'Masses', '']
     for e, k in types.items():
@@ -41,6 +42,7 @@ def _structure(name, lat, pos):
 def write_vasprun(path, n_frames=4, a=6.0, potim=2.0, tebeg=600.0):
     lat = np.eye(3) * a
     base = np.array([[0.0, 0.0, 0.0], [0.5, 0.0, 0.0], [0.0, 0.5, 0.0]])
+    unwrapped = np.array([[0.0, -0.02, 0.0], [0.0, 0.0, 0.0], [0.0, 0.0, 0.99]])     # written as they are: one atom below 0, one crossing 1
     elements = ['Li', 'Li', 'S']
     x = ['<?xml version="1.0" encoding="ISO-8859-1"?>', '<modeling>', ' <generator>',
          '  <i name="program" type="string">vasp </i>', '  <i name="version" type="string">6.3.0  </i>', ' </generator>',
@@ -65,11 +67,11 @@ def write_vasprun(path, n_frames=4, a=6.0, potim=2.0, tebeg=600.0):
           '    <rc><c>   1</c><c>S </c><c>     32.06</c><c>      6.0</c><c>  PAW_PBE S 06Sep2000 </c></rc>',
           '   </set>', '  </array>', ' </atominfo>', _structure('initialpos', lat, base).replace('\n', '\n')]
     for t in range(n_frames):
-        pos = np.mod(base + 0.01 * t, 1)
+        pos = base + 0.01 * t + unwrapped
         x += [' <calculation>', '  <scstep>', '   <energy>', '    <i name="e_fr_energy"> -10.0 </i>', '    <i name="e_wo_entrp"> -10.0 </i>',
               '    <i name="e_0_energy"> -10.0 </i>', '   </energy>', '  </scstep>', _structure('', lat, pos),
               '  <energy>', '   <i name="e_fr_energy"> -10.0 </i>', '   <i name="e_wo_entrp"> -10.0 </i>', '   <i name="e_0_energy"> -10.0 </i>',
               '  </energy>', ' </calculation>']
-    x += [_structure('finalpos', lat, np.mod(base + 0.01 * (n_frames - 1), 1)), '</modeling>']
+    x += [_structure('finalpos', lat, base + 0.01 * (n_frames - 1) + unwrapped), '</modeling>']
     open(path, 'w').write('\n'.join(x) + '\n')
     return path
